@@ -38,6 +38,7 @@ func runC12(p *core.Prog, r *core.Report) {
 	c12R8(p, r)
 	// a transient fault on an upload is absorbed by sending the body again: the copy hands over a source that can rewind (shared with C05.R6)
 	c05R6(p, r, "C12.R9")
+	transportRetryRule(p, r, "C12.R10")
 }
 
 // c12R8: a body that ends early is recognised, and resumed with a Range request, only when the
@@ -1700,4 +1701,103 @@ func pagerListing(l *core.Loop, isListing func(*types.Func) bool) ssa.CallInstru
 		}
 	})
 	return listing
+}
+
+// transportRetryRule: a request that failed in the transport (connection reset, broken pipe, refused)
+// is repeated on the same host after a backoff. The flag that takes the host out of the list for this
+// request is never set on the failure edge of the HTTP round trip: an upload is sent to the one
+// registry only (no mirrors), so giving that host up on the first reset fails the whole upload where
+// the retry would have absorbed the fault.
+func transportRetryRule(p *core.Prog, r *core.Report, rule string) {
+	r.Rule(rule, "a transport failure is retried on the same host: from the failure edge of the HTTP round trip (http.Client.Do) in internal/reghttp no store of true to the flag that removes the host from the request's host list is reachable (an upload has no other host to go to: one connection reset would fail it)", 1)
+	fns := pkgFuncs(p, "internal/reghttp")
+	type doSite struct {
+		fn   *ssa.Function
+		call *ssa.Call
+	}
+	var dos []doSite
+	for _, fn := range fns {
+		core.Calls(fn, func(c ssa.CallInstruction) {
+			call, ok := c.(*ssa.Call)
+			if f := core.Callee(c); ok && f != nil && f.Pkg() != nil && f.Pkg().Path() == "net/http" && f.Name() == "Do" {
+				dos = append(dos, doSite{fn, call})
+			}
+		})
+	}
+	if len(dos) == 0 {
+		r.MissingAnchor(rule, "call of (*net/http.Client).Do in internal/reghttp")
+		return
+	}
+	// the drop flag: a bool cell of the enclosing function that is tested before the host list is
+	// shortened with slices.Delete
+	dropCell := func(parent *ssa.Function) *ssa.Alloc {
+		for _, b := range parent.Blocks {
+			ifi, ok := core.LastInstr(b).(*ssa.If)
+			if !ok {
+				continue
+			}
+			c, pol := core.StripNot(ifi.Cond, true)
+			l, ok := c.(*ssa.UnOp)
+			if !ok || l.Op != token.MUL {
+				continue
+			}
+			cell, ok := l.X.(*ssa.Alloc)
+			if !ok {
+				continue
+			}
+			succ := b.Succs[0]
+			if !pol {
+				succ = b.Succs[1]
+			}
+			for _, in := range succ.Instrs {
+				if cc, ok := in.(ssa.CallInstruction); ok {
+					if f := core.Callee(cc); f != nil && f.Pkg() != nil && f.Pkg().Path() == "slices" && f.Name() == "Delete" {
+						return cell
+					}
+				}
+			}
+		}
+		return nil
+	}
+	lab := labeler{}
+	for _, d := range dos {
+		// the flag as seen from the function that makes the round trip
+		var flag ssa.Value
+		if cell := dropCell(d.fn); cell != nil {
+			flag = cell
+		} else if parent := d.fn.Parent(); parent != nil {
+			if cell := dropCell(parent); cell != nil {
+				for _, b := range parent.Blocks {
+					for _, in := range b.Instrs {
+						mc, ok := in.(*ssa.MakeClosure)
+						if !ok || mc.Fn != d.fn {
+							continue
+						}
+						for i, bd := range mc.Bindings {
+							if bd == cell && i < len(d.fn.FreeVars) {
+								flag = d.fn.FreeVars[i]
+							}
+						}
+					}
+				}
+			}
+		}
+		label := lab.next("round trip failure")
+		if flag == nil {
+			r.Held(rule, p.FuncName(d.fn), label, p.Pos(d.call.Pos()), "no flag of this function removes the host from the list")
+			continue
+		}
+		bad := ""
+		for _, e := range errEdgesOf(d.fn, d.call) {
+			for in := range (core.Reach{}).FromEdge(e[0], e[1]) {
+				if st, ok := in.(*ssa.Store); ok && st.Addr == flag {
+					if cst, isC := st.Val.(*ssa.Const); !isC || cst.Value == nil || cst.Value.String() != "false" {
+						bad = p.Pos(st.Pos())
+					}
+				}
+			}
+		}
+		r.Check(bad == "", rule, p.FuncName(d.fn), label, p.Pos(d.call.Pos()),
+			"the host is dropped at "+bad+" when the round trip itself failed: requests that may only go to the registry (every upload request) fail on the first connection reset instead of being retried after the backoff")
+	}
 }
